@@ -1,4 +1,5 @@
 import GoldModel.Lemmas.PegMemoOuter
+import GoldModel.Lemmas.PegOnce
 import GoldModel.Lemmas.GoldWF
 /-! the Gold grammar keeps its memoised parsers inside the cut-out method bodies -/
 namespace Gold.Gram
@@ -41,5 +42,25 @@ theorem gold_scoped : Scoped Γ Δ isOuter isInner := by
       simpa [hn, Γ] using this
     · have hg : Γ n = .eps Tree.none := by simp [Γ, List.getD, List.getElem?_eq_none hge]
       rw [hg]; rfl
+
+/-! every memoised parser of the Gold grammar caches failures as well as successes -/
+theorem allErrsΓ_ok : (tblΓ.all allErrs) = true := by decide +kernel
+theorem allErrsΔ_ok : (tblΔ.all allErrs) = true := by decide +kernel
+
+theorem gold_allErrsΓ (n : Nat) : allErrs (Γ n) = true := by
+  rcases Nat.lt_or_ge n tblΓ.length with h | h
+  · have hall := allErrsΓ_ok
+    rw [List.all_eq_true] at hall
+    exact hall _ (by simp [Γ, List.getD, h])
+  · have hg : Γ n = .eps Tree.none := by simp [Γ, List.getD, List.getElem?_eq_none h]
+    rw [hg]; rfl
+
+theorem gold_allErrsΔ (c : Nat) : allErrs (Δ c) = true := by
+  rcases Nat.lt_or_ge c tblΔ.length with h | h
+  · have hall := allErrsΔ_ok
+    rw [List.all_eq_true] at hall
+    exact hall _ (by simp [Δ, List.getD, h])
+  · have hg : Δ c = .eps Tree.none := by simp [Δ, List.getD, List.getElem?_eq_none h]
+    rw [hg]; rfl
 
 end Gold.Gram
